@@ -148,4 +148,23 @@ def Map.step (m : Map V) : Op V → Map V × Out V
 def Map.run : Map V → List (Op V) → List (Out V) := runSpec Map.step
 
 end Spec
+
+/-! ## the histories `C06_patricia_partial` covers -/
+
+/-- Put, Get, DeleteAll and the ordered-map queries (no Delete/DeleteMin/DeleteMax, no prefix/pattern query) -/
+def Op.patriciaScope : Op V → Bool
+  | .delete _ | .deleteMin | .deleteMax | .withPrefix _ | .longestPrefixOf _ | .match _ => false
+  | _ => true
+
+/-- `Put k` does not meet a *different* held key whose zero-padded bit string equals that of `k`
+(`DiffPos = 0`, i.e. the two keys differ only by trailing 0x00 bytes); other operations: no condition -/
+def Op.noClash (m : Spec.Map V) : Op V → Bool
+  | .put k _ => m.all (fun e => e.1 == k || BitString.diffPos e.1 k != 0)
+  | _ => true
+
+/-- a history in scope, started in Spec state `m`, without such a clash -/
+def PatriciaHistory : Spec.Map V → List (Op V) → Bool
+  | _, [] => true
+  | m, op :: ops => op.patriciaScope && op.noClash m && PatriciaHistory (Spec.Map.step m op).1 ops
+
 end AlgoVerif.C06
